@@ -422,7 +422,8 @@ def register(reg):
             elif exc.cls != "Cancelled":
                 # any other failure: leaves at once, no pause, no further attempt
                 n = exc.tag.get("trace_len", 0)
-                later = [e for e in c.trace[n:] if e.name.startswith("net.") or e.name == "backoff.next"]
+                # (closing the half-established stream is clean-up, not another attempt)
+                later = [e for e in c.trace[n:] if e.name in ("net.connect_tcp", "net.connect_unix", "net.start_tls", "net.sleep", "backoff.next")]
                 out.append(("other_failures_are_not_retried", ("C20", "C14"), len(later) == 0))
             return out
 
